@@ -40,18 +40,21 @@ open DSymVerif
 structure Part where
   parent : Array Nat
   rank : Array Nat
+  /-- modelling device only: a bound (> every rank) for the number of iterations of the
+      root walk; `Proofs/CosetPart.lean` proves it always suffices -/
+  fuel : Nat
   deriving Repr
 
 /-- `IntPartition::new` -/
-def Part.new : Part := ⟨#[], #[]⟩
+def Part.new : Part := ⟨#[], #[], 1⟩
 
 /-- `for i in self.parent.len()..=a { self.parent.push(i); self.rank.push(0) }` -/
 def Part.grow (p : Part) (a : Nat) : Part :=
   ⟨p.parent ++ (List.range' p.parent.size (a + 1 - p.parent.size)).toArray,
-   p.rank ++ Array.replicate (a + 1 - p.parent.size) 0⟩
+   p.rank ++ Array.replicate (a + 1 - p.parent.size) 0, p.fuel⟩
 
-/-- `while self.parent[root] != root { root = self.parent[root] }` (fuel = number of
-    elements: a parent chain without repetition is shorter) -/
+/-- `while self.parent[root] != root { root = self.parent[root] }` (ranks strictly
+    increase along a parent chain, so `fuel` > every rank bounds its length) -/
 def rootFuel (parent : Array Nat) : Nat → Nat → Nat
   | 0, x => x
   | f + 1, x =>
@@ -59,7 +62,7 @@ def rootFuel (parent : Array Nat) : Nat → Nat → Nat
     if y = x then x else rootFuel parent f y
 
 /-- `IntPartition::find` -/
-def Part.find (p : Part) (a : Nat) : Nat := rootFuel p.parent p.parent.size a
+def Part.find (p : Part) (a : Nat) : Nat := rootFuel p.parent p.fuel a
 
 /-- `IntPartition::unite` (union by rank; ties make the first argument's root the parent) -/
 def Part.unite (p : Part) (a b : Nat) : Part :=
@@ -72,7 +75,8 @@ def Part.unite (p : Part) (a b : Nat) : Part :=
     if rx < ry then { p with parent := p.parent.setIfInBounds x y }
     else
       { parent := p.parent.setIfInBounds y x
-        rank := if rx = ry then p.rank.setIfInBounds x (rx + 1) else p.rank }
+        rank := if rx = ry then p.rank.setIfInBounds x (rx + 1) else p.rank
+        fuel := if rx = ry then p.fuel + 1 else p.fuel }
 
 /-! ### `CosetTable` -/
 
